@@ -124,19 +124,45 @@ def check(c):
         c.ob('C03.stall', c.key(r, st) + ' = incomplete or unsatisfied', ok,
              c.where(r, st), f'{norm(r.value)} from {srcs}')
     lu = c.func(TP, 'TaskPool.log_unsatisfied_prereqs')
+    # an unsatisfied prerequisite is left out of the stall report only when
+    # the task or the prerequisite is beyond the stop point (whether written
+    # as `if ...: continue` or as the negated test around the rest)
+    recs = [n for n in c.calls(lu, 'append') if 'unsat' in norm(n.func.value)]
+    c.floor('C03.stall-ignores', 'unsatisfied prerequisite recorded',
+            len(recs), 1)
+    for n in recs:
+        c.guard_only('C03.stall-ignores', n, [
+            'self.stop_point', 'self.stop_point < _p',
+            '!(self.stop_point < _p)', '!self.stop_point'], lu,
+            what='only prerequisites beyond the stop point are ignored;')
     for n in c.idx.walk(lu.node):
         if isinstance(n, ast.Continue):
-            c.guard('C03.stall-ignores', n, ['self.stop_point', AnyOf(
-                'self.stop_point < task_point',
-                'self.stop_point < get_point(pr.point)')], lu,
-                what='only beyond the stop point;')
+            c.guard('C03.stall-ignores', n, ['self.stop_point',
+                                            'self.stop_point < _p'], lu,
+                    what='only beyond the stop point;')
+    # the incomplete-task report lists exactly the finished, incomplete tasks
+    # (loop with append or comprehension)
     li = c.func(TP, 'TaskPool.log_incomplete_tasks')
-    apps = c.calls(li, 'append')
-    c.floor('C03.stall', 'incomplete.append', len(apps), 1)
+    apps = [a.args[0] for a in c.calls(li, 'append')
+            if norm(a.func.value) == 'incomplete' and a.args] + [
+        n.value.elt for n in c.idx.walk(li.node) if isinstance(n, ast.Assign)
+        and norm(n.targets[0]) == 'incomplete' and isinstance(
+            n.value, ast.ListComp)]
+    c.floor('C03.stall', 'incomplete tasks collected', len(apps), 1)
     for a in apps:
         c.guard('C03.stall', a, [
             StatusIn('failed', 'succeeded', 'expired', 'submit-failed'),
             '!itask.state.outputs.is_complete()'], li)
+        src = set()
+        cur = a
+        while id(cur) in c.idx.parent and cur is not li.node:
+            cur = c.idx.parent[id(cur)]
+            if isinstance(cur, ast.For):
+                src.add(norm(cur.iter))
+            elif isinstance(cur, ast.ListComp):
+                src |= {norm(g.iter) for g in cur.generators}
+        c.ob('C03.stall', c.key(a, li)[:100] + ' over the whole pool',
+             'self.get_tasks()' in src, c.where(a, li), str(sorted(src)))
     cws = c.func(S, 'Scheduler.check_workflow_stalled')
     sets = [s for s in c.stores(cws, 'is_stalled') if norm(s.value) == 'True']
     c.floor('C03.stall', 'is_stalled = True', len(sets), 1)
